@@ -185,6 +185,14 @@ Record tables := {
   (* does Expr.__mul__ / __truediv__ restore x.units after x = x.as_constant() *)
   mul_keeps_units : bool;
   div_keeps_units : bool;
+  (* do the quantity mixins' __rtruediv__ set units = x.units / self.units *)
+  rdiv_keeps_units : bool;
+  (* is the conversion branch of __compat_add__ guarded by equal-or-undefined quantities *)
+  compat_guard : bool;
+  (* do __add__/__sub__ give the sum the units of its operands (Expr._sum_units) *)
+  add_keeps_units : bool;
+  (* does TimeDomainExpression.FT restore the scaled units after result(var)/expand/simplify *)
+  ft_keeps_units : bool;
   sites : list (domain * domain * uvec);         (* change(..., units_scale=...) call sites *)
   flag_reads : list (uflag * readsite)
 }.
